@@ -142,7 +142,7 @@ pub fn e2e_scenario(c: &E2eCase) -> crate::e2e::Scenario {
             if f.undecoded && fr.len() == 14 {
                 fr[13] ^= 0x01; // DF17/18 with a broken parity, or an AP frame of another aircraft: see expectation below
             }
-            crate::e2e::Send { source: 0, frame: fr, pause_ms: (i % 3) as u32, cut: if i % 4 == 1 { 5 + i % 11 } else { 0 } }
+            crate::e2e::Send { source: 0, frame: fr, pause_ms: (i % 3) as u32, cut: if i % 4 == 1 { 5 + i % 11 } else { 0 }, clock_offset_s: None }
         }).collect(),
         df_filter: c.df_filter.as_ref().map(|v| v.iter().map(|n| if *n == 0 { first.df as u16 } else { other_df(first.df, *n).parse().unwrap_or(17) }).collect()),
         aircraft_filter: c.ac_filter.as_ref().map(|v| v.iter().map(|n| if *n == 0 { first.addr } else { other_addr(first.addr, *n) }).collect()),
@@ -152,6 +152,8 @@ pub fn e2e_scenario(c: &E2eCase) -> crate::e2e::Scenario {
         via_config,
         split: c.split,
         long_table: false,
+        // history kept for the default time, for 7 minutes, or not at all
+        history_expire: [None, Some(7), Some(0), Some(1)][(c.split as usize + c.frames.len()) % 4],
         // the filters also decide what enters the stored history (/track): asked for the first frame's aircraft and
         // for one other aircraft of the batch
         track: {
@@ -209,6 +211,9 @@ pub fn judge_e2e(sc: &crate::e2e::Scenario, out: &crate::e2e::Outcome, rep: &Val
         let icao = format!("{addr:06x}");
         let mut want: Vec<String> = out.lines.iter().filter_map(|l| serde_json::from_str::<Value>(l).ok()).filter(|v| v["icao24"] == icao.as_str() && matches!(v["df"].as_str(), Some("17") | Some("18") | Some("20") | Some("21"))).map(|v| v["timestamp"].to_string()).collect();
         let mut have: Vec<String> = hist.as_array().map(|a| a.iter().map(|v| v["timestamp"].to_string()).collect()).unwrap_or_default();
+        if sc.history_expire == Some(0) {
+            want.clear(); // no history is kept at all
+        }
         want.sort();
         have.sort();
         if want != have {
